@@ -8,6 +8,7 @@ import (
 
 var harnessOf = map[string]*sim.Harness{
 	"C07": HDKV, "C08": HDKV, "C09": HDKV, "C18": HDKV,
+	"C20": HBatch,
 }
 
 func TestWorker(t *testing.T) {
